@@ -196,6 +196,15 @@ def merge(g, a, b):
             return VRef("val", val=merge(g, a.val, b.val))
         if a.kind == b.kind and a.fid == b.fid and a.local == b.local and _proj_eq(a.proj, b.proj):
             return a
+        if a.kind == b.kind == "place" and a.fid == b.fid and a.local == b.local and _proj_shape_eq(a.proj, b.proj):
+            # same path shape, different (symbolic) element indices: merge the indices
+            proj = []
+            for x, y in zip(a.proj, b.proj):
+                if x[0] == "index" and not same_term(x[1], y[1]):
+                    proj.append(("index", z3.If(g, x[1], y[1])))
+                else:
+                    proj.append(x)
+            return VRef("place", a.fid, a.local, tuple(proj))
         raise Unsupported("merge of different references %r / %r" % (a, b))
     if isinstance(a, VSeq) and isinstance(b, VSeq):
         arr = a.arr if same_term(a.arr, b.arr) else z3.If(g, a.arr, b.arr)
@@ -214,6 +223,17 @@ def merge(g, a, b):
     if isinstance(a, VOpaque) or isinstance(b, VOpaque):
         return a if isinstance(a, VOpaque) else b
     raise Unsupported("merge %r / %r" % (type(a).__name__, type(b).__name__))
+
+
+def _proj_shape_eq(p, q):
+    if len(p) != len(q):
+        return False
+    for x, y in zip(p, q):
+        if x[0] != y[0]:
+            return False
+        if x[0] in ("field", "cindex", "downcast") and x[1] != y[1]:
+            return False
+    return True
 
 
 def _proj_eq(p, q):
